@@ -91,6 +91,14 @@ theorem value_text_gap_invariant (p : Out.Prefs) (lv : Nat) (a b : List VTok) (h
   rw [propertyValue_spec, propertyValue_spec, h]
 
 open CssVerif.ValueText in
+/-- normal form: every spelling has the `Property.value` of its spelling without any comment or white space
+(`components ts` is itself a token stream, and deleting the gaps twice is deleting them once) -/
+theorem value_text_normal_form (p : Out.Prefs) (lv : Nat) (ts : List VTok) :
+    propertyValue p lv ts = propertyValue p lv (components ts) := by
+  apply value_text_gap_invariant
+  simp [components, List.filter_filter]
+
+open CssVerif.ValueText in
 /-- the same as an edit: a run of comments and white space put anywhere into a value changes nothing -/
 theorem value_text_gap_insertion (p : Out.Prefs) (lv : Nat) (a g b : List VTok) (hg : ∀ t ∈ g, t.isGap = true) :
     propertyValue p lv (a ++ g ++ b) = propertyValue p lv (a ++ b) := by
